@@ -123,7 +123,8 @@ OpAppend(c, t, ttl0) ==
                         /\ acc' = Put(acc, id, f)
                         /\ UNCHANGED eph
                         /\ IF ttl.k = "head"
-                           THEN /\ gcq' = Append(gcq, [op |-> "check", ctx |-> c, topic |-> t, keep |-> ttl.n])
+                           THEN /\ gcq' = IF Dev = "head-check-skipped" THEN gcq
+                                            ELSE Append(gcq, [op |-> "check", ctx |-> c, topic |-> t, keep |-> ttl.n])
                                 /\ headKs' = AddHK(headKs, c, t, ttl.n)
                                 /\ owed' = owed \cup {<<c, t>>}
                            ELSE UNCHANGED <<gcq, headKs, owed>>
@@ -272,6 +273,17 @@ C08_NoEarlyLoss ==
   [][\A i \in Ids \ DOMAIN stream' : i \in removed' \/ Expired(i, stream[i], clock) \/ i \in evictable]_vars
 
 C01_AppendIdsIncrease == [][lastApp' >= lastApp]_vars
+
+(* C09 at rest, in every state (OpDrain judges the same statement, but only where a client action is still left):   *)
+(* whenever the collector's queue is empty, everything the reads met expired is physically gone and every           *)
+(* (context, topic) that owes a head:K trim holds at most K frames, the newest ones                                 *)
+INV_Drained == gcq = <<>> => (DrainVerdict(G, met, owed, Ids, imported) \cup EvictionOrderVerdict(G, Ids, imported)) = {}
+
+(* liveness (MC_store_live_*.cfg, no VIEW): the collector thread is the only actor that runs by itself; under weak    *)
+(* fairness of its step the queue drains whatever the clients do, so the enforced state of INV_Drained is reached   *)
+FairSpec == Spec /\ WF_vars(GcStep)
+L_GcDrains == <>[](gcq = <<>>)
+L_C09_Enforced == <>[]((DrainVerdict(G, met, owed, Ids, imported) \cup EvictionOrderVerdict(G, Ids, imported)) = {})
 
 (* behaviour generation: print one JSON line per finished behaviour *)
 =============================================================================
